@@ -311,5 +311,7 @@ func checkProofResult(result, value []byte) bool {
 	s = append(s, tempBytes...)
 	// TODO
 	//hash := crypto.Keccak256(value)
-	return bytes.Equal(s, value)
+	// the contract keeps every value in a 32-byte storage word: a value shorter than
+	// 32 bytes (the 8-byte big-endian clean sequence) occupies its low-order bytes
+	return bytes.Equal(s, common.LeftPadBytes(value, 32))
 }
